@@ -812,6 +812,12 @@ def check_flatmap(ctx, tu, tag=''):
                         at_old_end = ('field', ('elem', S, ('call', 'std::distance', None, vbegin(S), L)), 'second')
                         if rv is not None and unver(rv) == at_old_end:
                             pass
+                        elif rv is not None and unver(rv) == ('field', ('deref', L), 'second'):
+                            probs.append(('stale-iterator',
+                                          'after appending, operator[] returns `%s`: it goes through the iterator the lookup returned before the '
+                                          'insertion. That iterator compared equal to end() and is not refreshed; push_back invalidates it when the '
+                                          'vector reallocates (and the past-the-end iterator in any case), so the reference is not the new element\'s '
+                                          '.second unless spare capacity happens to be left (a reserve() elsewhere does not make this valid)' % show(rv)))
                         elif rv is None or unver(rv) != want:
                             (und if rv is None or has_unknown(unver(rv)) else probs).append(
                                 ('wrong-element', 'after appending, operator[] returns `%s` instead of the new last element\'s .second'
@@ -1240,7 +1246,55 @@ def check_paramobj(ctx, tu, tag=''):
                 wrong_is = [c for c, pol, _ in p.conds if isinstance(unver(c), tuple) and unver(c)[0] == 'call'
                             and str(unver(c)[1]).startswith(ANY + '::is{') and unver(c) != is_t]
                 if wrong_is:
-                    probs.append(('type-test-other-type', 'getParam<%s> tests `%s`' % (T, show(unver(wrong_is[0])))))
+                    m_ = re.search(r'::is\{(.*)\}$', str(unver(wrong_is[0])[1]))
+                    probs.append(('type-test-other-type',
+                                  'getParam<%s> tests `%s`, i.e. whether the stored value has type %s: a read is typed by the exact type that was '
+                                  'stored - a parameter holding another type must yield the caller\'s default and stay unqueried, whatever '
+                                  'conversion exists between the two types' % (T, show(unver(wrong_is[0])), m_.group(1) if m_ else 'different type')))
+                # the stored value is only read: handing it to a move constructor / move assignment as an rvalue empties it
+                for ev in p.events:
+                    if ev.kind != 'call' or ev.node is None or not isinstance(ev.value, (list, tuple)):
+                        continue
+                    sd_ = tu.sd(ev.node)
+                    m_ = re.search(r'\((.*)\)', sd_.get('fty') or '')
+                    if not m_ or '&&' not in m_.group(1) or not any(isinstance(v, tuple) and contains(unver(v), dplace) for v in ev.value):
+                        continue
+                    h_ = base_name(ev.how or '')
+                    if h_ in ('std::move', 'std::forward') or last(h_) in ('is', 'get'):
+                        continue
+                    # the argument expression itself must designate the stored value (the get<T>() call, or a reference bound to it) -
+                    # a local that holds a copy of it is the function's own to move from
+                    def designates_stored(a_):
+                        a_ = tu.strip(a_, casts=True)
+                        while a_ is not None and a_.get('kind') == 'CallExpr' and tu.sd(a_).get('q') in ('std::move', 'std::forward'):
+                            a_ = tu.strip(tu.kids(a_)[-1], casts=True)
+                        if a_ is None:
+                            return None
+                        if a_.get('kind') == 'DeclRefExpr':
+                            ty_ = ((a_.get('referencedDecl') or {}).get('type') or {}).get('qualType', '')
+                            return True if ty_.rstrip().endswith('&') else False
+                        if a_.get('kind') == 'CXXMemberCallExpr' and last(base_name(tu.sd(a_).get('q') or '')) == 'get':
+                            return True
+                        return None
+                    argn_ = [k_ for k_ in tu.kids(ev.node)]
+                    if ev.node.get('kind') in ('CallExpr', 'CXXOperatorCallExpr', 'CXXMemberCallExpr'):
+                        argn_ = argn_[1:]
+                    ds_ = [designates_stored(k_) for k_ in argn_]
+                    if ds_ and all(x is False for x in ds_):
+                        continue
+                    if not any(x is True for x in ds_):
+                        und.append(('stored-value-rvalue', 'cannot tell whether `%s` is handed the stored value itself or a copy of it' % tu.show(ev.node)[:120]))
+                        continue
+                    if sd_.get('k') == 'ctor' or last(h_) == 'operator=':
+                        rec_ = tu.records_by_type.get(sd_.get('cty') or sd_.get('ct') or '')
+                        if rec_ and (rec_.get('move_ctor') or {}).get('simple'):
+                            continue
+                        probs.append(('read-moves-stored-value',
+                                      'getParam<%s> hands the stored value to `%s` as an rvalue (`%s`): the read moves the value out of the parameter, '
+                                      'which still reports is<%s>() but holds a moved-from value - a second getParam of the same name yields that instead '
+                                      'of the value that was set' % (T, h_, tu.show(ev.node)[:120], T)))
+                    else:
+                        und.append(('stored-value-rvalue', 'the stored value is passed as an rvalue to `%s`' % h_))
                 if other_stores:
                     und.append(('other-store', 'getParam writes `%s`' % show(other_stores[0].nf)))
                 qincs = [ev for ev in p.events if ev.kind == 'mutate' and ev.nf == qplace and ev.how in ('++', 'operator++')]
